@@ -50,6 +50,13 @@ def deps(spec):
             d[f"/B/0.{i}"] = ["/A/0"]
         d["/C/0"] = [f"/B/0.{i}" for i in range(spec["n"])]
         return d
+    if k == "filescatter2c":
+        d = {"/A/0": []}
+        for i in range(spec["n"]):
+            d[f"/B/0.{i}"] = ["/A/0"]
+        d["/C1/0"] = [f"/B/0.{i}" for i in range(spec["n"])]
+        d["/C2/0"] = [f"/B/0.{i}" for i in range(spec["n"])]
+        return d
     if k in ("twojobs", "filediamond"):
         return {"/A/0": [], "/B/0": ["/A/0"], "/C/0": ["/A/0"], "/D/0": ["/B/0", "/C/0"]}
     if k in ("loopjob", "fileloop"):
@@ -81,10 +88,11 @@ def shapes(tier):
         {"prog": "filejobs", "k": 2, "kind": "list"}, {"prog": "filejobs", "k": 2, "kind": "object"},
         {"prog": "scatterjobs", "n": 3}, {"prog": "filescatter", "n": 2}, {"prog": "filediamond"},
         {"prog": "loopjob", "pred": "lt3"},
+        {"prog": "filescatter2c", "n": 3, "faults_on": ["/C1/0", "/B/0.1"]},
     ]
     if tier == "quick":
         return q
-    return q + [{"prog": "filescatter", "n": 3}, {"prog": "filejobs", "k": 3, "kind": "list"},
+    return q + [{"prog": "filescatter", "n": 3}, {"prog": "filescatter2c", "n": 2}, {"prog": "filescatter2c", "n": 3}, {"prog": "filejobs", "k": 3, "kind": "list"},
                 {"prog": "loopjob", "pred": "lt1"}, {"prog": "loopjob", "pred": "lt3", "method": "all"},
                 {"prog": "seq_job_scatterjobs", "n": 2}, {"prog": "twojobs"}, {"prog": "scatterjobs", "n": 1}]
 
@@ -94,6 +102,8 @@ def single_faults(spec, tier):
     out = []
     files = spec["prog"].startswith("file")
     for j in _exec.program_jobs(spec):
+        if spec.get("faults_on") and j not in spec["faults_on"]:
+            continue
         anc = sorted(ancestors(spec, j))
         direct = deps(spec).get(j, [])
         for phase in ("execute", "transfer", "schedule"):
@@ -107,7 +117,12 @@ def single_faults(spec, tier):
                 if files and anc and anc != list(direct):
                     loses.append(anc)
                 if files:
-                    loses.append("all")
+                    # "all" = every job directory.  With several sink jobs (two consumers), the OTHER sink's directory holds
+                    # a workflow output that nothing depends on: destroying it is not "loss of the failed job's data" and
+                    # cannot be noticed by the engine, so it is left alone.
+                    d = deps(spec)
+                    sinks = [x for x in d if not any(x in v for v in d.values())]
+                    loses.append("all" if len(sinks) <= 1 else [x for x in d if x not in sinks and x != j])
                 for lose in loses:
                     if tier == "quick" and count == 2 and lose not in ("own",):
                         continue
